@@ -78,55 +78,108 @@ Theorem C18_creds_run_is_exec : forall os s, fst (run s os) = exec s os.
 Proof. exact run_exec. Qed.
 Print Assumptions C18_creds_run_is_exec.
 
-(* ===================== headers (fs/remote HTTP fetcher) ===================== *)
+(* ===================== headers and credentials on the wire (registry.go host list, fs/remote fetcher + transport,
+   docker authorizer) ===================== *)
 Import Model.Headers Proofs.Headers.
 
-(* For every host configuration, every behaviour of the registries during the initial resolution and the size probe
-   (script), and every schedule of concurrent fetch / check calls at the granularity of their critical sections with
-   every behaviour of the servers (direct, redirect, 403 -> URL refresh, 400 -> single-range retry, errors):
-   each request that carries the headers configured for host i goes to the blob URL on host i and host i has
-   headers configured. *)
+(* RegistryHostsFromConfig: one registry host per configured mirror, in order, each with exactly its OWN header table
+   (non-empty or not), then the origin host without headers -- for every list of mirrors. *)
+Theorem C18_host_list_has_per_host_tables :
+  forall (ms : list mirror) (hs : list hostcfg),
+    hosts_of_config ms = Some hs ->
+    length hs = S (length ms)
+    /\ (forall i m, nth_error ms i = Some m -> nth_error hs i = Some (mkHost (m_valid m) (table_nonempty (m_hdr m))))
+    /\ nth_error hs (length ms) = Some (mkHost true false).
+Proof. exact hosts_of_config_spec. Qed.
+Print Assumptions C18_host_list_has_per_host_tables.
+
+(* For every host list, every credential function, every behaviour of the registries, redirect locations and token
+   servers during the initial resolution and the size probe (script: failing mirrors fall through to the next host),
+   and every schedule of concurrent fetch / check calls at the granularity of their critical sections with every
+   behaviour of the servers (direct, redirect, 401 challenges Basic/Bearer with token fetches, 403 -> URL refresh,
+   400 -> single-range retry, errors): each request that carries the headers configured for host i goes to the blob
+   URL on host i and host i has headers configured. *)
 Theorem C18_headers_confined :
-  forall (hs : list hostcfg) (sc : list resp) (os : list Headers.op),
-    Forall (confined hs) (fst (resolve hs sc))
-    /\ forall i u h hc, snd (resolve hs sc) = Some (i, u, h) -> nth_error hs i = Some hc ->
-         Forall (confined hs) (emitted true (mk_fetcher i (org_of i hc) u h) os).
+  forall (creds : nat -> ckind) (hs : list hostcfg) (sc : list resp) (os : list Headers.op),
+    Forall (confined hs) (fst (resolve creds hs sc))
+    /\ forall i u h a hc, snd (resolve creds hs sc) = Some (i, u, h, a) -> nth_error hs i = Some hc ->
+         Forall (confined hs) (emitted true creds (mk_fetcher i (org_of i hc) u h a) os).
 Proof. exact headers_confined. Qed.
 Print Assumptions C18_headers_confined.
+
+(* ... and with the host list built from the configuration, "host i has headers configured" means mirror i's own
+   table is non-empty: a header-less mirror or the origin never inherits another host's headers. *)
+Theorem C18_headers_confined_by_configuration :
+  forall ms hs q i,
+    hosts_of_config ms = Some hs -> confined hs q -> r_hdr q = Some i ->
+    r_loc q = Blob i /\ exists m, nth_error ms i = Some m /\ table_nonempty (m_hdr m) = true.
+Proof. exact confined_config. Qed.
+Print Assumptions C18_headers_confined_by_configuration.
 
 (* The state invariant behind it: whenever the fetcher holds a non-empty header set, its current target is the
    registry's own blob URL (never a redirect location). *)
 Theorem C18_header_implies_registry_url :
-  forall hs sc os i u h hc j,
-    snd (resolve hs sc) = Some (i, u, h) -> nth_error hs i = Some hc ->
-    header (Headers.exec true (mk_fetcher i (org_of i hc) u h) os) = Some j ->
-    url (Headers.exec true (mk_fetcher i (org_of i hc) u h) os) = Blob j /\ j = i /\ h_hdr hc = true.
+  forall creds hs sc os i u h a hc j,
+    snd (resolve creds hs sc) = Some (i, u, h, a) -> nth_error hs i = Some hc ->
+    header (Headers.exec true creds (mk_fetcher i (org_of i hc) u h a) os) = Some j ->
+    url (Headers.exec true creds (mk_fetcher i (org_of i hc) u h a) os) = Blob j /\ j = i /\ h_hdr hc = true.
 Proof. exact header_state_confined. Qed.
 Print Assumptions C18_header_implies_registry_url.
 
-(* Never forwarded: a request to a redirect location (anything that is not a registry blob URL) carries no
-   configured header. *)
+(* Never forwarded: a request to a redirect location or a token server (anything that is not a registry blob URL)
+   carries no configured header. *)
 Theorem C18_redirect_location_gets_no_header :
   forall hs q, confined hs q -> (forall i, r_loc q <> Blob i) -> r_hdr q = None.
 Proof. exact confined_elsewhere. Qed.
 Print Assumptions C18_redirect_location_gets_no_header.
 
+(* Credentials on the wire, same quantification: a Basic credential obtained for host j goes only to a URL on host j
+   and only if the credential function offered user and secret for j; a token request carries a credential only if
+   the credential function offered a secret for the host on whose behalf the token is fetched (the host that sent the
+   challenge) and goes to a token endpoint without configured headers; a bearer token fetched on behalf of host j is
+   presented to host j only (no reuse across hosts, also after redirects). *)
+Theorem C18_credentials_confined_on_wire :
+  forall (creds : nat -> ckind) (hs : list hostcfg) (sc : list resp) (os : list Headers.op),
+    Forall (cred_ok creds) (fst (resolve creds hs sc))
+    /\ forall i u h a hc, snd (resolve creds hs sc) = Some (i, u, h, a) -> nth_error hs i = Some hc ->
+         Forall (cred_ok creds) (emitted true creds (mk_fetcher i (org_of i hc) u h a) os).
+Proof. exact creds_on_wire. Qed.
+Print Assumptions C18_credentials_confined_on_wire.
+
+(* Composition with the keychain: when the credential function is the CRI keychain after ANY history kos, a request
+   that carries the secret on behalf of host j (Basic to j, or inside j's token request) exists only if the most
+   recent pull-or-remove request for the image is an accepted pull whose auth config names no server address or one
+   whose URL host is j's name (docker.io aliases as index.docker.io). *)
+Theorem C18_secret_on_wire_follows_pull_server_address :
+  forall (c : bool) (kos : list Creds.op) (name : nat -> Creds.str) (r : nat) j q,
+    let creds := fun j => kind_of (Creds.credentials (Creds.exec (Creds.init c) kos) (name j) r) in
+    cred_ok creds q -> carries_secret_for j q ->
+    exists pre a ok post,
+      kos = pre ++ Creds.Pull (Some r) (Some a) ok :: post
+      /\ (forall o, In o post -> Creds.touches r o = false)
+      /\ (c = true \/ In Creds.Connect pre)
+      /\ (Creds.a_sa a = Creds.SAEmpty
+          \/ (Creds.a_sa a <> Creds.SAEmpty /\ Creds.url_host (Creds.a_sa a) = Some (Creds.alias (name j)))).
+Proof. exact secret_follows_pull. Qed.
+Print Assumptions C18_secret_on_wire_follows_pull_server_address.
+
 (* The coarse steps the harness schedules (run a thread to the next point where it can be held) are compositions of
    the atomic sub-steps the theorems quantify over, with the same requests. *)
 Theorem C18_resume_is_atomic_steps :
-  forall fixed s t r,
+  forall fixed creds s t r toks,
     exists ms, Forall (micro_of t) ms
-               /\ Headers.exec fixed s ms = fst (resume fixed s t r) /\ emitted fixed s ms = snd (resume fixed s t r).
+               /\ Headers.exec fixed creds s ms = fst (resume fixed creds s t r toks)
+               /\ emitted fixed creds s ms = snd (resume fixed creds s t r toks).
 Proof. exact resume_micros. Qed.
 Print Assumptions C18_resume_is_atomic_steps.
 
-(* The same statement is FALSE of the code before patches/C18-fix-1.diff (header read outside the critical section
+(* The header statement is FALSE of the code before patches/C18-fix-1.diff (header read outside the critical section
    that reads the target): a schedule exists in which the headers of registry host 0 are sent to the redirect
-   location Ext 0. The harness replays this schedule on the implementation (corpus case 2 of cmd/credsfetch). *)
+   location Ext 100 0. The harness replays this schedule on the implementation (corpus case 2 of cmd/credsfetch). *)
 Theorem C18_headers_confined_without_fix_refuted :
-  exists hs sc os i u h hc,
-    snd (resolve hs sc) = Some (i, u, h) /\ nth_error hs i = Some hc
-    /\ In (mkReq GET (Ext 0) (Some 0)) (emitted false (mk_fetcher i (org_of i hc) u h) os).
+  exists creds hs sc os i u h a hc,
+    snd (resolve creds hs sc) = Some (i, u, h, a) /\ nth_error hs i = Some hc
+    /\ In (mkReq GET (Ext 100 0) (Some 0) AzNone) (emitted false creds (mk_fetcher i (org_of i hc) u h a) os).
 Proof. exact unfixed_leaks. Qed.
 Print Assumptions C18_headers_confined_without_fix_refuted.
 
@@ -145,8 +198,20 @@ Proof. vm_compute. repeat split. Qed.
 (* a resolution that is redirected, and the schedule of the race on the fixed code: requests to the redirect location
    without headers, the refresh request to the registry with them *)
 Example C18_headers_nonvacuous :
-  resolve race_hosts race_script
-    = ([mkReq GET (Blob 0) (Some 0); mkReq HEAD (Ext 0) None], Some (0, Ext 0, None))
-  /\ emitted true (mk_fetcher 0 (Some 0) (Ext 0) None) race_schedule
-     = [mkReq GET (Ext 0) None; mkReq GET (Blob 0) (Some 0); mkReq GET (Ext 0) None].
+  resolve no_creds race_hosts race_script
+    = ([mkReq GET (Blob 0) (Some 0) AzNone; mkReq HEAD (Ext 100 0) None AzNone], Some (0, Ext 100 0, None, new_authz))
+  /\ emitted true no_creds (mk_fetcher 0 (Some 0) (Ext 100 0) None new_authz) race_schedule
+     = [mkReq GET (Ext 100 0) None AzNone; mkReq GET (Blob 0) (Some 0) AzNone; mkReq GET (Ext 100 0) None AzNone].
 Proof. vm_compute. split; reflexivity. Qed.
+
+(* credentials offered for the mirror (host 0) only: the mirror's Bearer challenge is answered with a token request that
+   carries the secret, the redirect location's challenge with an anonymous one; each token goes back to its own host *)
+Example C18_wire_nonvacuous :
+  let creds := fun j => match j with 0 => KBoth | _ => KNone end in
+  fst (resolve creds race_hosts
+         [Resp 401 None false (ChBearer (Some 0) false); default_resp; Resp 307 (Some (Ext 100 0)) true ChNone;
+          Resp 401 None false (ChBearer (Some 1) false); default_resp; default_resp])
+  = [mkReq GET (Blob 0) (Some 0) AzNone; mkReq POST (Realm 0) None (AzTok 0 true);
+     mkReq GET (Blob 0) (Some 0) (AzBearer 0 0); mkReq HEAD (Ext 100 0) None AzNone;
+     mkReq GET (Realm 1) None (AzTok 100 false); mkReq HEAD (Ext 100 0) None (AzBearer 100 1)].
+Proof. vm_compute. reflexivity. Qed.
